@@ -1142,6 +1142,7 @@ fn main() {
             "a crash is a process crash: the file is a prefix of what was written; every append is fsynced before the call returns, so each record boundary is an acknowledgement point".into(),
             "a vote counts as collected iff the live coordinator accepted it (record_vote returned Ok); the coordinator logs votes before validating them, so the log also holds rejected votes".into(),
             "timeouts of restored transactions (fresh start time, 5 s) never fire within a case; completion through complete_commit/complete_abort is not logged by the code and therefore creates no obligation".into(),
+            "recovery calls are also issued on the running coordinator between further transactions: a transaction that was pending and held coordinator key locks before such a call may be kept or forgotten by it, but if it is forgotten its locks must be gone (only recovery calls are judged this way; late PREPAREs and the timeout sweeper can leave locks of unknown handles behind, which is C12's subject)".into(),
             "a completed transaction found among the pending ones after restart is reported, because the timeout sweeper would abort it 5 s later; the harness does not wait for that".into(),
             "violations observed on a log that contains a torn record followed by appended records are attributed to that defect (signature torn-tail-then-append:*) unless the same signature also arises when the restart is judged against the log cut at the torn record (what a reader that cannot skip it sees)".into(),
         ],
